@@ -62,7 +62,8 @@ def run_oracle(module, cases, consts=None, procs=8, per_batch=None, timeout=1500
     out = {"rejects": [], "values": [], "states": 0, "cases": len(cases), "wall": 0.0}
     if not cases:
         return out
-    per_batch = per_batch or max(5, len(cases) // procs + 1)
+    # short TLC runs: bounded batches queue through the pool of `procs` processes
+    per_batch = per_batch or min(250, max(5, len(cases) // procs + 1))
     jobs = [(module, consts or {}, cases[i:i + per_batch], list(range(i, min(len(cases), i + per_batch))), timeout)
             for i in range(0, len(cases), per_batch)]
     with cf.ThreadPoolExecutor(max_workers=procs) as ex:
@@ -106,7 +107,7 @@ def run_traces(module, traces, consts=None, procs=8, per_batch=None, timeout=150
     out = {"rejects": [], "events": 0, "states": 0, "wall": 0.0}
     if not traces:
         return out
-    per_batch = per_batch or max(5, len(traces) // procs + 1)
+    per_batch = per_batch or min(400, max(5, len(traces) // procs + 1))
     jobs = [(module, consts or {}, traces[i:i + per_batch], list(range(i, min(len(traces), i + per_batch))), timeout)
             for i in range(0, len(traces), per_batch)]
     with cf.ThreadPoolExecutor(max_workers=procs) as ex:
